@@ -8,7 +8,7 @@ import random
 
 import vlib
 
-TOGGLES = ["FixSessionWriteLock"]
+TOGGLES = ["FixSessionWriteLock", "FixSendGuardUnderLock"]
 OPEN = ["FixGracefulClose"]   # deviations that are open findings: modelled, not repaired
 MONITOR_CFG = ("SPECIFICATION Spec\nCONSTANTS\n  TraceFile = \"@TRACE@\"\n"
                "POSTCONDITION Consumed\nCHECK_DEADLOCK FALSE\n")
@@ -21,7 +21,7 @@ def model_cfg(tier, tg, graceful=True):
     return ("SPECIFICATION Spec\nCONSTANTS\n  Senders <- MCSenders\n  PerSender = %d\n  K = %d\n  W = %d\n" % (per, k, w)
             + "".join("  %s = %s\n" % (x, vlib.tla_bool(tg[x])) for x in TOGGLES)
             + "  FixGracefulClose = %s\n" % vlib.tla_bool(graceful)
-            + "INVARIANTS TypeOK P_C04 P_C13 WriterExclusion\nCHECK_DEADLOCK FALSE\n")
+            + "INVARIANTS TypeOK P_C04 P_C13 WriterExclusion NoDataAfterFinished\nCHECK_DEADLOCK FALSE\n")
 
 
 def configs(tier, family):
@@ -39,6 +39,8 @@ def configs(tier, family):
         for tr in TRANSPORTS:
             for ini in INITIATORS:
                 for busy in ([False, True] if family != "C04" else [False]):
+                    if family == "C06" and ini in ("cfinish", "cclose") and busy:
+                        continue   # the established-phase send guard is about the side that sends the terminal envelope
                     out.append({"transport": tr, "buffer": rng.choice([0, 1, 8]), "senders": rng.choice([1, 2, 4]),
                                 "count": rng.choice([4, 10, 25]) if tier == "quick" else rng.choice([10, 40, 120]),
                                 "payload": rng.choice(["small", "big"]), "delay": rng.choice([0, 0, 150]),
@@ -134,3 +136,4 @@ class Fam:
 C04 = Fam("C04")
 C13 = Fam("C13")
 C17 = Fam("C17")
+C06 = Fam("C06")
